@@ -121,6 +121,23 @@ def scaleOf (k : Kind) (m : Metric) (dst : Interval) : Metric :=
   | .calmar => CalmarRatio.scale root m dst
   | .ror => RateOfReturn.scale m dst
 
+/-! branch tags (`% ...` lines are not observations; they feed the evidence's branch histogram) -/
+
+def calcTag (k : Kind) (rf mean risk : Rat) : String :=
+  if k == .ror then "ror" else
+  if risk == 0 then
+    (if k == .sharpe then "sharpe-zero-risk"
+     else if rf < mean then "zero-risk-pos" else if mean < rf then "zero-risk-neg" else "zero-risk-eq")
+  else if risk < 0 then "ratio-neg-risk" else "ratio"
+
+def scaleTag (k : Kind) (v : Rat) (src dst : Interval) : String :=
+  let law : Rat → Rat := if k == .ror then id else root
+  let prod := v * law (periods src dst)
+  (if src.secs == 0 then "zero-current" else if dst.secs == 0 then "zero-target"
+   else if src.interval % 1000 == 0 && dst.interval % 1000 == 0 then "whole" else "truncated") ++ "/" ++
+  (if v == decimalMax then "MAX" else if v == decimalMin then "MIN" else "finite") ++ "/" ++
+  (if decimalMax < prod then "overflow-pos" else if prod < decimalMin then "overflow-neg" else "fits")
+
 def obsState (g : Gen) : List String :=
   ["st now " ++ toString g.timeEngineNow ++ " cnt " ++ fmtRat g.total.count ++ " " ++
     fmtRat g.losses.count ++ " mean " ++ fmtRatApprox g.total.mean ++ " sd " ++
@@ -147,10 +164,15 @@ def model : Drv (Option Gen) where
     match parseOp toks with
     | none => (s, ["bad-op"])
     | some (.name iv) => (s, ["name " ++ iv.name, "secs " ++ toString (numSeconds iv.interval)])
-    | some (.calc k rf mean risk iv) => (s, obsMetric (calcOf k rf mean risk iv))
+    | some (.calc k rf mean risk iv) =>
+      (s, obsMetric (calcOf k rf mean risk iv) ++ ["% calc " ++ calcTag k rf mean risk])
     | some (.calcRor mean iv) => (s, obsMetric (RateOfReturn.calculate mean iv))
-    | some (.scale k v src dst) => (s, obsMetric (scaleOf k ⟨v, src⟩ dst))
-    | some (.cs k rf mean risk src dst) => (s, obsMetric (scaleOf k (calcOf k rf mean risk src) dst))
+    | some (.scale k v src dst) =>
+      (s, obsMetric (scaleOf k ⟨v, src⟩ dst) ++ ["% scale " ++ scaleTag k v src dst])
+    | some (.cs k rf mean risk src dst) =>
+      let m := calcOf k rf mean risk src
+      (s, obsMetric (scaleOf k m dst) ++
+        ["% cs " ++ calcTag k rf mean risk ++ " " ++ scaleTag k m.value src dst])
     | some (.init t0) => let g := Gen.init t0; (some g, obsState g)
     | some (.pos p) =>
       match s with
@@ -164,7 +186,15 @@ def model : Drv (Option Gen) where
       | none => (s, ["bad-op"])
       | some g =>
         let (g', sheet) := g.generate root rf iv
-        (some g', obsSheet (numSeconds g.tradingPeriod.interval) sheet)
+        let p := g.tradingPeriod
+        let dd := (g.sheet.generate.2.max.map (·.value)).getD 0
+        (some g', obsSheet (numSeconds p.interval) sheet ++
+          [ "% gen sharpe " ++ calcTag .sharpe rf g.total.mean g.total.dispersion.stdDev ++ " " ++
+              scaleTag .sharpe (SharpeRatio.calculate rf g.total.mean g.total.dispersion.stdDev p).value p iv,
+            "% gen sortino " ++ calcTag .sortino rf g.total.mean g.losses.dispersion.stdDev ++ " " ++
+              scaleTag .sortino (SortinoRatio.calculate rf g.total.mean g.losses.dispersion.stdDev p).value p iv,
+            "% gen calmar " ++ calcTag .calmar rf g.total.mean dd ++ " " ++
+              scaleTag .calmar (CalmarRatio.calculate rf g.total.mean dd p).value p iv ])
 
 /-! ### abstract spec: recomputed from the inputs / the whole history, extended values -/
 
@@ -208,6 +238,8 @@ def keyed (key : String) : Option String → List String
 
 def specGen (s : SSt) (rf : Rat) (iv : Interval) : List String :=
   let period := specTradingPeriod s.start s.ps
+  -- C18 documents drawdowns for curves whose running maxima are positive only
+  let positive : Bool := decide (Drawdown.PositivePeaks (specCurve s.ps))
   let ddmax := (Drawdown.specMax (Drawdown.reported (specCurve s.ps))).map (·.value)
   let m := specMetrics root rf s.ps (ddmax.getD 0)
   let ts := TearSheet.specTearSheet (s.ps.map (·.closed))
@@ -216,9 +248,9 @@ def specGen (s : SSt) (rf : Rat) (iv : Interval) : List String :=
   keyed "ror" (specScaled .ror m.pnlReturn period iv) ++
   keyed "sharpe" (specScaled .sharpe m.sharpe period iv) ++
   keyed "sortino" (specScaled .sortino m.sortino period iv) ++
-  keyed "calmar" (specScaled .calmar m.calmar period iv) ++
-  [ "ddmax " ++ fmtOptRatApprox ddmax,
-    "win " ++ fmtOptRatApprox ts.winRate,
+  (if positive then keyed "calmar" (specScaled .calmar m.calmar period iv) ++
+    [ "ddmax " ++ fmtOptRatApprox ddmax ] else []) ++
+  [ "win " ++ fmtOptRatApprox ts.winRate,
     "pf " ++ fmtPF ts.profitFactor ]
 
 def spec : Drv (Option SSt) where
